@@ -51,6 +51,17 @@ Definition eHistory (o : option (list result)) : list Z :=
            | Some outs => [1] ++ tag 2 ++ eList (fun r => tag 3 ++ eResult r) outs
            end.
 
+(* an op-level controller history: specs, then steps = nodes, metrics (with rv), ops;
+   an op = code (1 sync, 2 key, 3 clear cache, 4 delete shard), scheduler, hidden NodeShards *)
+Definition dOp : dec op6 :=
+  let* c := dZ in let* s := dZ in let* h := dList dZ in
+  if c =? 1 then ret (OSync h) else if c =? 2 then ret (OKey s h)
+  else if c =? 3 then ret OClear else if c =? 4 then ret (ODelete s) else fail.
+Definition dOpsHistory : dec (list sspec * list (list node * metrics * list op6)) :=
+  let* ss := dList dSspec in
+  let* steps := dList (let* ns := dList dNode in let* m := dMetricsRv in let* ops := dList dOp in ret (ns, m, ops)) in
+  ret (ss, steps).
+
 Definition entry (sel : Z) (toks : list Z) : list Z :=
   match sel with
   (* CalculateShardAssignments through the real configuration path *)
@@ -82,6 +93,11 @@ Definition entry (sel : Z) (toks : list Z) : list Z :=
      (expired assignment cache -> calculateAndApplyAssignment): the same function *)
   | 7 => match run_dec dHistory toks with
          | Some (ss, steps) => eHistory (publish_history ss steps)
+         | None => bad_input end
+  (* the controller key by key: syncs, single worker items in any order, cache clears,
+     deleted NodeShards, NodeShards missing from the lister; the NodeShards on the API server after every step *)
+  | 8 => match run_dec dOpsHistory toks with
+         | Some (ss, steps) => eHistory (publish_ops_history ss steps)
          | None => bad_input end
   (* laws evaluated on the implementation's own results: must answer [1] *)
   | 101 => match run_dec dResult toks with
